@@ -558,4 +558,48 @@ def _noident(ctx, d, pgpy):
             k.add_uid(pgpy.PGPUID.new('First'), usage={KeyFlags.Sign})
         except Exception as e:
             ctx.fail('first-self-certification-refused', {'key': name, 'err': repr(e)[:120]})
+    # the same for a key that HAS capable subkeys but no identity (its only identity removed, or a transferable key that arrived without one):
+    # operations that would be handed to a subkey are refused as well
+    from pgpy.constants import HashAlgorithm
+    for pname, psub, pflags in (('ed25519_0', 'ed25519_1', {KeyFlags.Certify}), ('rsa1024_0', 'ecdsa_p256_1', {KeyFlags.Certify}), ('ecdsa_p256_0', 'ed25519_2', {KeyFlags.Certify, KeyFlags.Sign})):
+        for how in ('del_uid', 'loaded-without-identity'):
+            k = pool.pgpy_key(pname, uid='Only Identity', usage=pflags, sub=psub, sub_usage={KeyFlags.Sign}, fresh=True)
+            k.add_subkey(pool.pgpy_bare('cv25519_2'), usage={KeyFlags.EncryptCommunications, KeyFlags.EncryptStorage})
+            enc_to_sub = k.pubkey.encrypt(msg)
+            if how == 'del_uid':
+                k.del_uid('Only Identity')
+            else:
+                from ..ref import wire as W
+                out, skipping = b'', False
+                for p_ in W.split(bytes(k)):
+                    if p_.tag == 13:
+                        skipping = True
+                        continue
+                    if p_.tag in (5, 7):
+                        skipping = False
+                    if skipping and p_.tag == 2:
+                        continue
+                    out += W.new_hdr(p_.tag, len(p_.body)) + p_.body
+                k = pgpy.PGPKey.from_blob(out)[0]
+            if len(k.userids) != 0 or len(k.subkeys) != 2:
+                ctx.fail('harness-identityless-key-not-built', {'key': pname, 'how': how})
+                continue
+            ctx.count('identityless_keys_with_subkeys')
+            for opname, f in (('sign', lambda: k.sign('x')), ('sign-hash', lambda: k.sign('x', hash=HashAlgorithm.SHA512)), ('timestamp', lambda: k.sign(None)),
+                              ('sign-message', lambda: k.sign(msg)), ('revoke', lambda: k.revoke(k)), ('revoke-subkey', lambda: k.revoke(list(k.subkeys.values())[0])),
+                              ('revoker', lambda: k.revoker(other.pubkey)), ('certify-other', lambda: k.certify(other.pubkey.userids[0])),
+                              ('bind', lambda: k.bind(pool.pgpy_bare('ed25519_3'), usage={KeyFlags.Sign})),
+                              ('decrypt', lambda: k.decrypt(enc_to_sub)), ('encrypt', lambda: k.pubkey.encrypt(msg)), ('verify', None)):
+                if f is None:
+                    continue
+                ctx.count('cells')
+                ctx.count('evaluations')
+                try:
+                    f()
+                    ctx.fail('key-without-identity-performed-operation', {'key': pname, 'sub': psub, 'how': how, 'op': opname})
+                except pgpy.errors.PGPError:
+                    ctx.count('refusals_expected_and_seen')
+                except Exception as e:
+                    ctx.outcome('noident_error:%s:%s' % (opname, type(e).__name__))
+                    ctx.count('refusals_expected_and_seen')
     ctx.nontrivial(d)
